@@ -6,6 +6,7 @@
    The first formulation of these theorems (without the non-zero constant terms) was REFUTED in Coq
    (brain_prob_false / brain_center_false in alg/BrainAlgebra.v: an element whose lightest isotope has abundance or
    mass 0); the side condition is decided on the regenerated table below. *)
+From Coq Require Import String.
 From mathcomp Require Import all_ssreflect all_algebra.
 From mathcomp Require Import ssrZ.
 From CE Require Import Num TableTypes TableModel Brain BrainSpec NumMC BrainAlgSpec BrainAlgebra Table.
@@ -50,5 +51,17 @@ Theorem C03_table_ok :
   List.forallb (fun p => brain_elem_ok (snd p) && elem_tail_pos (snd p)) (build_table table_src) = true.
 Proof. vm_compute. reflexivity. Qed.
 
+(* the elements whose polynomial the code does NOT read faithfully are exactly the listed ones: 13 with a gap in the
+   nucleon-number ladder (F12) and 40 with an isotope lighter than the most abundant one (F14); for every other
+   element Q_e is the true isotope polynomial, so C03_brain_prob/_center speak of the exact distribution *)
+Theorem C03_unfaithful_elements :
+  List.map fst (List.filter (fun p => negb (faithful (snd p))) (build_table table_src))
+  = ("Ag" :: "Ar" :: "B" :: "Ba" :: "Br" :: "Ca" :: "Cd" :: "Ce" :: "Cl" :: "Cr" :: "Cu" :: "Dy" :: "Er" :: "Eu" :: "Fe" :: "Ga"
+     :: "Gd" :: "Ge" :: "He" :: "Hf" :: "Hg" :: "In" :: "Ir" :: "Kr" :: "La" :: "Li" :: "Mo" :: "Nd" :: "Ni" :: "Os" :: "Pb" :: "Pd"
+     :: "Pt" :: "Rb" :: "Re" :: "Ru" :: "S" :: "Sb" :: "Se" :: "Sm" :: "Sn" :: "Sr" :: "Ta" :: "Te" :: "Ti" :: "Tl" :: "U" :: "V"
+     :: "W" :: "Xe" :: "Yb" :: "Zn" :: "Zr" :: nil)%string.
+Proof. vm_compute. reflexivity. Qed.
+
+Print Assumptions C03_unfaithful_elements.
 Print Assumptions C03_brain_prob. Print Assumptions C03_brain_center. Print Assumptions C03_brain_defined.
 Print Assumptions C03_brain_prob_unconditional_refuted. Print Assumptions C03_table_ok.
